@@ -8,7 +8,7 @@ CONSTANTS
   AtomicLaunch = FALSE
   ErrFirst = TRUE
   HookKinds = {"none"}
-SPECIFICATION Spec
-INVARIANTS CommandsAfterDependencies StopsAtFailure FinalOK RunOnlyWhileStageRunning UpBeforeUse DownAfterAll OneUpAtATime NothingRunsAtReturn NoDoubleLaunch
-PROPERTY Terminates
+INIT InitDouble
+NEXT Next
+INVARIANTS NoDoubleLaunch
 CHECK_DEADLOCK FALSE
